@@ -194,3 +194,48 @@ TRUSTED_BASE = [
     'OCaml 4.13.1 ocamlfind ocamlopt; cross-checked against Eval vm_compute on a slice each run',
     'not verified: z3 itself, pydantic validation internals, string-derived z3 names (C14)',
 ]
+
+
+def pmap(fn, jobs, procs=16, timeout=1500):
+    """map over worker processes that survives a worker that dies (a crash inside z3, a kill) or hangs: such a job is re-run
+    alone, and if it dies again its result is {'idx', 'error', 'crashed'} -- the engines report it, the check terminates"""
+    import concurrent.futures as cf
+    import multiprocessing as mp
+    results = [None] * len(jobs)
+
+    def sentinel(i, why):
+        j = jobs[i]
+        idx = j[0] if isinstance(j, (tuple, list)) and j and isinstance(j[0], int) else i
+        return {'idx': idx, 'error': 'worker process lost while running this case (%s): the library / z3 crashed or hung on it' % why,
+                'crashed': True, 'status': None, 'diffs': [], 'violations': [], 'per_cfg': [], 'o1': None, 'model_run': None}
+
+    def run_batch(indices, workers, tmo):
+        ex = cf.ProcessPoolExecutor(max_workers=workers, mp_context=mp.get_context('fork'))
+        futs = {ex.submit(fn, jobs[i]): i for i in indices}
+        try:
+            for f in cf.as_completed(futs, timeout=tmo):
+                i = futs[f]
+                try:
+                    results[i] = f.result()
+                except cf.process.BrokenProcessPool:
+                    pass
+                except Exception as e:      # the job function itself raised: keep it as an error result
+                    results[i] = dict(sentinel(i, 'exception'), error='job raised %r' % (e,))
+        except cf.TimeoutError:
+            pass
+        procs_ = list(getattr(ex, '_processes', {}).values())
+        ex.shutdown(wait=False, cancel_futures=True)
+        for p_ in procs_:
+            try:
+                p_.kill()
+            except Exception:
+                pass
+        return [i for i in indices if results[i] is None]
+
+    left = run_batch(list(range(len(jobs))), procs, timeout)
+    if left:
+        # isolate the unfinished jobs: a few at a time, then one by one
+        for i in left:
+            if run_batch([i], 1, min(timeout, 600)):
+                results[i] = sentinel(i, 'died or timed out twice')
+    return results
